@@ -20,7 +20,7 @@ type Violation struct {
 	Expected string   `json:"expected"`
 	Observed string   `json:"observed"`
 	Product  []POp    `json:"product_path,omitempty"` // C12: operations of the product system
-	Known    string   `json:"known,omitempty"` // id of a listed known finding
+	Known    string   `json:"known,omitempty"`        // id of a listed known finding
 	Tags     []string `json:"tags,omitempty"`
 }
 
@@ -30,24 +30,24 @@ func (v *Violation) String() string {
 
 // Stats are the measured coverage counters of one job.
 type Stats struct {
-	States        int            `json:"states"`
-	Variants      int            `json:"raw_variants_expanded"`
-	Unexpanded    int            `json:"raw_variants_seen_not_expanded"`
-	Transitions   int            `json:"transitions"`
-	PoisonRuns    int            `json:"poison_runs"`
-	WarmRuns      int            `json:"warm_runs"`
-	DrainSteps    int            `json:"drain_steps"`
-	Evaluations   int            `json:"evaluations"`
-	Nontrivial    int            `json:"distinct_nontrivial"`
-	FaultySkipped int            `json:"faulty_transitions_skipped"`
-	TaintedSkip   int            `json:"known_finding_transitions_not_expanded"`
-	MaxDepth      int            `json:"max_depth"`
-	Levels        int            `json:"bfs_levels_completed"`
-	Exhaustive    bool           `json:"exhaustive"`
-	CapHit        string         `json:"cap_hit,omitempty"`
-	Outcomes      map[string]int `json:"outcomes,omitempty"` // distinct observed outcome classes
-	Samples       []string       `json:"samples"`
-	WallS         float64        `json:"wall_s"`
+	States        int                `json:"states"`
+	Variants      int                `json:"raw_variants_expanded"`
+	Unexpanded    int                `json:"raw_variants_seen_not_expanded"`
+	Transitions   int                `json:"transitions"`
+	PoisonRuns    int                `json:"poison_runs"`
+	WarmRuns      int                `json:"warm_runs"`
+	DrainSteps    int                `json:"drain_steps"`
+	Evaluations   int                `json:"evaluations"`
+	Nontrivial    int                `json:"distinct_nontrivial"`
+	FaultySkipped int                `json:"faulty_transitions_skipped"`
+	TaintedSkip   int                `json:"known_finding_transitions_not_expanded"`
+	MaxDepth      int                `json:"max_depth"`
+	Levels        int                `json:"bfs_levels_completed"`
+	Exhaustive    bool               `json:"exhaustive"`
+	CapHit        string             `json:"cap_hit,omitempty"`
+	Outcomes      map[string]int     `json:"outcomes,omitempty"` // distinct observed outcome classes
+	Samples       []string           `json:"samples"`
+	WallS         float64            `json:"wall_s"`
 	Extra         map[string]float64 `json:"extra,omitempty"` // engine-specific counters, summed on merge
 }
 
@@ -802,4 +802,3 @@ func erasedKey(d Driver, scratch *[]byte) Hash {
 	*scratch = b
 	return HashOf(b)
 }
-
